@@ -12,9 +12,13 @@
 import Kopf.Model.C04_Diff
 import Kopf.Model.C04_Essence
 import Kopf.Model.C04_Guards
-import Kopf.Lemmas.C04_OwnKey
+import Kopf.Lemmas.C04_OwnKeyMulti
 namespace Kopf.C04
 open Kopf Kopf.J
+
+/-- the blake2b table the examples need: `make_suffix('')` (used by `make_keys` to decide whether a V1
+    key can fit at all). -/
+def hashes0 : Hashes := [("", "-EnHPJQ")]
 
 /-- Python equality modulo null-valued object keys. -/
 def Equiv (a b : J) : Prop := pyEq (dropNulls a) (dropNulls b) = true
@@ -307,7 +311,7 @@ theorem ordinary_annotation_change_detected (cfg : Cfg) (extra : List (List Stri
 /-- the hypotheses are met by the default configuration, a plain user annotation, a changed label. -/
 def cfgDefault : Cfg :=
   ⟨.leaf (.annotations "kopf.zalando.org" "last-handled-configuration" true []),
-   [.annotations "kopf.zalando.org", .status ["status", "kopf", "progress"]], []⟩
+   [.annotations "kopf.zalando.org", .status ["status", "kopf", "progress"]], hashes0⟩
 
 example : MetaPlain cfgDefault [["spec", "field"]] := by
   refine ⟨?_, ?_, ?_⟩
@@ -344,37 +348,36 @@ theorem keys_depend_only_on_body (h : Hashes) (v1 : Bool) (prefix_ key : String)
     (serveSeq h v1 prefix_ key (before ++ b :: after))[before.length]? = some (keysFor h v1 prefix_ key b) := by
   simp [serveSeq]
 
-example : (keysFor [] true "kopf.zalando.org" "last-handled-configuration"
+example : (keysFor hashes0 true "kopf.zalando.org" "last-handled-configuration"
       (.obj [("kind", .str "ReplicaSet"), ("metadata", .obj [("ownerReferences", .arr [.obj [("kind", .str "Deployment")]])])])).toOption
       = some ["kopf.zalando.org/last-handled-configuration-ofDRS"]
-    ∧ (keysFor [] true "kopf.zalando.org" "last-handled-configuration"
+    ∧ (keysFor hashes0 true "kopf.zalando.org" "last-handled-configuration"
       (.obj [("kind", .str "Deployment"), ("metadata", .obj [])])).toOption
       = some ["kopf.zalando.org/last-handled-configuration"] := by decide
 
 /-! ## own keys under an unmarked prefix (the exact-key / progress-prefix route) -/
 
-/-- **Own key, unmarked prefix, single annotations diff-base storage** (the guard that excludes F9:
-    no `MultiDiffBaseStorage`): with `AnnotationsDiffBaseStorage(prefix=p, key=key)`, setting, changing
-    or removing one of its exact keys (`ks`, as formed by `make_keys` for this body), or any key under
-    the prefix of an `AnnotationsProgressStorage`, leaves the essence the same mapping — the diff of
-    the two essences is empty (no re-trigger) — although the prefix is not marked (`markedPrefix? k0 =
-    none`: no `kopf-managed` marker yet, or a `kopf.*` prefix for which none is ever written).
-    Full clause (for every configuration) is false: `multi_drs_witness` (F9). -/
-theorem own_key_unmarked_invisible_partial (cfg : Cfg) (extra : List (List String)) (kvs m A A' : Kvs)
-    (k0 p key : String) (v1 : Bool) (ig : List (List String)) (mk : List Char) (ks : List String) (e e' : J)
-    (hcfg : cfg.diffbase = .leaf (.annotations p key v1 ig)) (hplain : MetaPlain cfg extra)
-    (hm : lookup "metadata" kvs = some (.obj m)) (ha : lookup "annotations" m = some (.obj A))
-    (hd : AgreeOffKey k0 A' A) (hmark : markedPrefix? k0 = none)
-    (hmk : markKey (.obj kvs) key.toList = .ok mk) (hks : makeKeys cfg.hashes v1 p.toList mk = .ok ks)
-    (hown : k0 ∈ ks ∨ ∃ q, q ∈ progressPrefixes cfg.progress ∧ underPrefix q.toList k0 = true)
+/-- **Own key, unmarked prefix, every diff-base configuration** (single Annotations/Status storages
+    and `MultiDiffBaseStorage` as repaired in kopf 55b75e2): setting, changing or removing one of the
+    operator's own annotation names for this object (`OwnKeyOf`: an exact key of a configured
+    `AnnotationsDiffBaseStorage` as `make_keys` forms it for this body — `-ofDRS` mark included —, or
+    any name under the prefix of an `AnnotationsProgressStorage`) leaves the essence the same mapping:
+    the diff of the two essences is empty (no re-trigger), although the prefix is not marked
+    (`markedPrefix? k0 = none`: no `kopf-managed` marker yet, or a `kopf.*` prefix for which none is
+    ever written). The object has a `kind` and an annotations mapping; `MetaPlain` as above. -/
+theorem own_key_unmarked_invisible (cfg : Cfg) (extra : List (List String)) (kvs m A A' : Kvs)
+    (k0 : String) (kd : J) (e e' : J) (hplain : MetaPlain cfg extra)
+    (hk : lookup "kind" kvs = some kd) (hm : lookup "metadata" kvs = some (.obj m))
+    (ha : lookup "annotations" m = some (.obj A)) (hd : AgreeOffKey k0 A' A) (hmark : markedPrefix? k0 = none)
+    (hown : OwnKeyOf cfg (.obj kvs) k0)
     (hw : J.WF (.obj kvs)) (hw' : J.WF (.obj (withAnn kvs m A')))
     (h : essence cfg extra (.obj kvs) = .ok e) (h' : essence cfg extra (.obj (withAnn kvs m A')) = .ok e') :
     diff e e' [] = [] :=
-  own_key_unmarked_diff_nil hcfg hplain hm ha hd hmark hmk hks hown hw hw' h h'
+  own_key_unmarked_general hplain hk hm ha hd hmark hown hw hw' h h'
 
 /-- a `kopf.dev` diff-base storage: its last-handled key is unmarked and among the exact keys. -/
 example : markedPrefix? "kopf.dev/last-handled-configuration" = none
-    ∧ (makeKeys [] true "kopf.dev".toList "last-handled-configuration".toList).toOption =
+    ∧ (makeKeys hashes0 true "kopf.dev".toList "last-handled-configuration".toList).toOption =
         some ["kopf.dev/last-handled-configuration"] := by decide
 
 /-! ## the excluded points, executed (witnesses for the known findings F8, F9) -/
@@ -386,7 +389,7 @@ def diffLen (x y : Except Err J) : Option Nat :=
 
 def cfgStatusProgress : Cfg :=
   ⟨.leaf (.annotations "kopf.zalando.org" "last-handled-configuration" true []),
-   [.status ["status", "kopf", "progress"]], []⟩
+   [.status ["status", "kopf", "progress"]], hashes0⟩
 
 /-- F8: with `StatusProgressStorage` and a handler on field `status` (outside `ExtraAvoids "status"`),
     kopf's own touch (`status.kopf.dummy`) is an essential change. -/
@@ -401,7 +404,7 @@ theorem extra_status_witness :
 
 def cfgMultiDev : Cfg :=
   ⟨.multi [.annotations "kopf.dev" "last-handled-configuration" true []],
-   [.annotations "kopf.zalando.org", .status ["status", "kopf", "progress"]], []⟩
+   [.annotations "kopf.zalando.org", .status ["status", "kopf", "progress"]], hashes0⟩
 
 def rsBody (anns : List (String × J)) : J :=
   .obj [("kind", .str "ReplicaSet"),
@@ -409,12 +412,20 @@ def rsBody (anns : List (String × J)) : J :=
                            ("annotations", .obj anns)]),
         ("spec", .obj [("replicas", .num 1)])]
 
-/-- F9: `MultiDiffBaseStorage` re-builds from the essence, where `kind`/`ownerReferences` are gone, so
-    the `-ofDRS`-marked last-handled key under the unmarked prefix `kopf.dev` is not cleaned: the
-    framework's own last-handled write is an essential change. -/
-theorem multi_drs_witness :
+/-- the `-ofDRS` key is an own key (`OwnKeyOf`) of the Multi configuration for the ReplicaSet, and unmarked. -/
+example : OwnKeyOf cfgMultiDev (rsBody [("plain", .str "v")]) "kopf.dev/last-handled-configuration-ofDRS"
+    ∧ markedPrefix? "kopf.dev/last-handled-configuration-ofDRS" = none :=
+  ⟨Or.inl ⟨"kopf.dev", "last-handled-configuration", true, [], "last-handled-configuration-ofDRS".toList,
+    ["kopf.dev/last-handled-configuration-ofDRS"], by simp [cfgMultiDev, diffbaseLeaves], rfl, rfl, by decide⟩,
+   by decide⟩
+
+/-- the former witness of finding C04-F9 (fixed in kopf 55b75e2), now a positive instance:
+    `MultiDiffBaseStorage` hands `kind` and `metadata.ownerReferences` to the nested storages, so the
+    `-ofDRS`-marked last-handled key of a Deployment-owned ReplicaSet under the unmarked prefix
+    `kopf.dev` is cleaned — the framework's own last-handled write is no essential change. -/
+theorem multi_drs_own_key_invisible :
     diffLen (essence cfgMultiDev [] (rsBody [("plain", .str "v")]))
       (essence cfgMultiDev [] (rsBody [("plain", .str "v"), ("kopf.dev/last-handled-configuration-ofDRS", .str "{}")]))
-      = some 1 := by decide
+      = some 0 := by decide
 
 end Kopf.C04
